@@ -22,5 +22,7 @@ def run(ctx):
     ctx.assumptions += ["the source's own lane is a serial lane (C01/C02 models)"]
     runs = [[ctx.seed * 10 + i, 40000 if ctx.thorough else 6000] for i in range(3 if ctx.thorough else 1)]
     run_traces(ctx, "tr_source", runs, "source", r"explained-by-SourceFold.step (\d+)", "L-trace source", "source", timeout=600)
+    # suspension clause: the source suspended from its own registration / event handler, a merge right after - nothing before the resume
+    run_traces(ctx, "c15_regsusp", [[ctx.seed]], None, None, "L-api suspended source", "regsusp", timeout=200)
     ctx.cov["rule"] = ("tr_source: DATA_ADD / DATA_OR / DATA_REPLACE x global / concurrent / serial target, 4 merging threads, handler that yields and sometimes suspends and resumes its own "
                        "source, one external suspend/resume; distinct_nontrivial = ds_pending_data transitions explained; items = handler invocations checked")
